@@ -21,7 +21,6 @@ FUNC = (ast.FunctionDef, ast.AsyncFunctionDef)
 MAX_INLINES_PER_FUNCTION = 60
 MAX_HELPER_NODES = 1500
 JUMP = '__inline_return__'
-AMBIGUOUS: Set[int] = set()
 
 
 def load_inventory() -> Set[str]:
@@ -43,7 +42,7 @@ def function_defs(tree: ast.Module) -> Dict[str, ast.AST]:
                 if q in out and any(isinstance(d, ast.Attribute) and d.attr == 'setter' for d in st.decorator_list):
                     q += '.setter'
                 if q in out:
-                    AMBIGUOUS.add(id(out[q])); AMBIGUOUS.add(id(st))     # two definitions of one name (chosen by a condition)
+                    out[q]._sa_ambiguous = True; st._sa_ambiguous = True     # two definitions of one name (chosen by a condition)
                 out[q] = st
                 scope(st.body, q + '.')
             elif isinstance(st, ast.ClassDef):
@@ -154,7 +153,7 @@ class ModuleInliner:
         g = self.defs[q]
         if g.name.startswith('__') and g.name.endswith('__'):
             return False            # special methods are API, not cut-out code
-        if id(g) in AMBIGUOUS:
+        if getattr(g, '_sa_ambiguous', False):
             return False            # which definition is meant depends on the path
         if g.decorator_list or g.args.vararg or g.args.kwarg or isinstance(g, ast.AsyncFunctionDef):
             return False
@@ -921,6 +920,136 @@ def normalize_unbound_tensor_calls(tree: ast.Module) -> int:
             return n
     T().visit(tree)
     return n_rw
+
+
+def desugar_modern_syntax(tree: ast.Module) -> int:
+    """`match` on literals / classes and unconditional walrus bindings are rewritten to the if/elif chains and plain assignments
+    the rules read (same decisions, same order of evaluation):
+
+        match s:                     if s == 'a': ...
+            case 'a': ...            elif s == 'b' or s == 'c': ...
+            case 'b' | 'c': ...      elif isinstance(s, K): ...
+            case K(): ...            else: ...
+            case _: ...
+        if (n := f(x)) > 1: ...      n = f(x);  if n > 1: ...
+
+    A pattern with sub-patterns, captures inside or-patterns, sequences or mappings is left alone."""
+    n_rw = [0]
+    counter = [0]
+
+    def pat_test(p, subj):
+        """(test expr or None for always-true, bindings) or raises ValueError if not expressible."""
+        if isinstance(p, ast.MatchValue):
+            return ast.Compare(left=copy.deepcopy(subj), ops=[ast.Eq()], comparators=[p.value]), []
+        if isinstance(p, ast.MatchSingleton):
+            return ast.Compare(left=copy.deepcopy(subj), ops=[ast.Is()], comparators=[ast.Constant(value=p.value)]), []
+        if isinstance(p, ast.MatchOr):
+            tests = []
+            for q in p.patterns:
+                t, b = pat_test(q, subj)
+                if b or t is None:
+                    raise ValueError
+                tests.append(t)
+            return ast.BoolOp(op=ast.Or(), values=tests), []
+        if isinstance(p, ast.MatchAs):
+            if p.pattern is None:
+                return None, ([ast.Assign(targets=[ast.Name(id=p.name, ctx=ast.Store())], value=copy.deepcopy(subj))] if p.name else [])
+            t, b = pat_test(p.pattern, subj)
+            return t, b + ([ast.Assign(targets=[ast.Name(id=p.name, ctx=ast.Store())], value=copy.deepcopy(subj))] if p.name else [])
+        if isinstance(p, ast.MatchClass) and not p.patterns and not p.kwd_patterns:
+            return ast.Call(func=ast.Name(id='isinstance', ctx=ast.Load()), args=[copy.deepcopy(subj), p.cls], keywords=[]), []
+        raise ValueError
+
+    def rewrite_match(m: ast.Match):
+        pre = []
+        subj = m.subject
+        if not _simple(subj):
+            counter[0] += 1
+            tmp = f"__match{counter[0]}"
+            pre.append(ast.Assign(targets=[ast.Name(id=tmp, ctx=ast.Store())], value=subj))
+            subj = ast.Name(id=tmp, ctx=ast.Load())
+        chain = None
+        try:
+            for case in reversed(m.cases):
+                t, binds = pat_test(case.pattern, subj)
+                if case.guard is not None:
+                    if binds:
+                        raise ValueError
+                    t = case.guard if t is None else ast.BoolOp(op=ast.And(), values=[t, case.guard])
+                body = binds + case.body
+                if t is None:
+                    chain = body                      # irrefutable: the else branch
+                else:
+                    chain = [ast.If(test=t, body=body, orelse=chain or [])]
+        except ValueError:
+            return None
+        return pre + (chain or [])
+
+    def hoist_walrus(st):
+        """Walrus bindings in unconditionally evaluated positions of a simple statement or an `if` test."""
+        exprs = []
+        if isinstance(st, ast.If):
+            exprs = [('test', st.test)]
+        elif isinstance(st, (ast.Assign, ast.Expr, ast.Return, ast.AugAssign, ast.AnnAssign)) and getattr(st, 'value', None) is not None:
+            exprs = [('value', st.value)]
+        pre = []
+        for fld, e in exprs:
+            def visit(x, top=False):
+                if isinstance(x, (ast.Lambda, ast.ListComp, ast.SetComp, ast.DictComp, ast.GeneratorExp, ast.IfExp)):
+                    return x
+                if isinstance(x, ast.BoolOp):
+                    x.values[0] = visit(x.values[0])
+                    return x
+                for f2, v in list(ast.iter_fields(x)):
+                    if isinstance(v, ast.AST):
+                        setattr(x, f2, visit(v))
+                    elif isinstance(v, list):
+                        setattr(x, f2, [visit(y) if isinstance(y, ast.AST) else y for y in v])
+                if isinstance(x, ast.NamedExpr) and isinstance(x.target, ast.Name):
+                    pre.append(ast.Assign(targets=[ast.Name(id=x.target.id, ctx=ast.Store())], value=x.value))
+                    return ast.Name(id=x.target.id, ctx=ast.Load())
+                return x
+            setattr(st, fld, visit(e))
+        return pre
+
+    def block(stmts):
+        out = []
+        for st in stmts:
+            for fld in ('body', 'orelse', 'finalbody'):
+                b = getattr(st, fld, None)
+                if isinstance(b, list) and b and isinstance(b[0], ast.stmt):
+                    setattr(st, fld, block(b))
+            for h in getattr(st, 'handlers', []) or []:
+                h.body = block(h.body)
+            if isinstance(st, ast.Match):
+                for c in st.cases:
+                    c.body = block(c.body)
+                new = rewrite_match(st)
+                if new is not None:
+                    n_rw[0] += 1
+                    for x in new:
+                        for y in ast.walk(x):
+                            if isinstance(y, (ast.stmt, ast.expr)) and not hasattr(y, 'lineno'):
+                                ast.copy_location(y, st)
+                    out += new
+                    continue
+            if any(isinstance(x, ast.NamedExpr) for x in ast.walk(st)) and not isinstance(st, FUNC + (ast.ClassDef,)):
+                pre = hoist_walrus(st)
+                if pre:
+                    n_rw[0] += 1
+                    for x in pre:
+                        for y in ast.walk(x):
+                            if isinstance(y, (ast.stmt, ast.expr)) and not hasattr(y, 'lineno'):
+                                ast.copy_location(y, st)
+                    out += pre
+            out.append(st)
+        return out
+    has = any(isinstance(x, (ast.Match, ast.NamedExpr)) for x in ast.walk(tree))
+    if not has:
+        return 0
+    tree.body = block(tree.body)
+    ast.fix_missing_locations(tree)
+    return n_rw[0]
 
 
 def normalize_aliases(tree: ast.Module) -> int:
